@@ -15,6 +15,18 @@ Tie to /repo:
       compared exactly (uint8 modulo 256); the Lean reference (`npPad`, `refAxes`) vs the real
       `np.pad`; `ResizingOperator`: `_resize_discr` (`resizeAxis`), `_offset_from_spaces`
       (`offsetFromAxes`), adjoint with weightings (`opAdjointW`, `opAdjointND`).
+  (C, round 4) `derived` stream: `ResizingOperator.inverse` / `.derivative` / `.adjoint` of real
+      operators (1-3 axes, all modes, extension / restriction / mixed, pad_const zero and
+      non-zero, ran_shp / offset / explicit range, nodes on the boundary) vs `ROp.inverse`,
+      `ROp.derivative`, `ROp.adjointCall`, `inverseOffsets` (driver ops opinv, opinv2, opderiv,
+      opadjraw, invoff); `tolerance` stream: explicit ranges misaligned by 0 / 2^-30 / 2^-20 /
+      2^-16 / >= 2^-12 cells vs `offsetFromAxesTol` = `_offset_from_spaces` with `np.around`
+      and `np.isclose` (rtol, atol passed exactly; driver op offsptol).  Oracles of these
+      streams: np.pad-style value of inverse(y), inverse(op(x)) == x on extensions,
+      op(inverse(y)) == y on restrictions, op(x) - op(x') == derivative(x - x'), attributes of
+      the derived operators, NotImplementedError iff non-linear, plain transpose identity;
+      aligned (up to 2^-30 cells) and contained ranges accepted with the right offset, ranges
+      misaligned by >= 2^-12 cells or not contained refused, accepted offset = nearest integer.
 Oracle (independent of the model, on the real code): `np.pad` with the equivalent mode
 (explicit linear extrapolation and vanishing second differences for order1) on the cropped
 input; documented admissibility of the padding lengths; offsets out of range refused; input
